@@ -75,7 +75,7 @@ class Restrict(Harness):
         # only names columns that are requested and present (a map entry for an unread column raises KeyError there; not examined)
         pool = [(("c", "shift"),), (("a", "float"),), (("c", "float"), ("a", "shift")), (("z", "shift"),)]
         if self.reader == "DataFrame.from_json":
-            pool = [(("a", "float"),), (("c", "float"), ("a", "float"))]
+            pool = [(("a", "float"),), (("c", "float"), ("a", "float")), (("a", "str"),)]
         if self.reader == "ListOfDicts.from_json":
             # float() of a symbolic int would have to be concretised (CPython demands a real float): the callable only
             pool = [(("c", "shift"),), (("a", "shift"),), (("c", "shift"), ("a", "shift")), (("z", "shift"),)]
@@ -92,7 +92,10 @@ class Restrict(Harness):
         for i in range(n):
             rec = {}
             for k in choice(f"keys{i}", [("a", "b", "c"), ("c", "a"), ("b",)] if not self.typed else [("a", "b", "c"), ("c", "a")]):
-                rec[k] = json_value(ctx, f"v{i}{k}") if (k not in typed or self.reader.startswith("DataFrame")) else SymPyInt(symx.sym_i64(f"v{i}{k}"))
+                if dict(map(tuple, types)).get(k) == "str":
+                    rec[k] = choice(f"v{i}{k}", [None, "s", "tt"])        # a string column with nulls, requested as str
+                else:
+                    rec[k] = json_value(ctx, f"v{i}{k}") if (k not in typed or self.reader.startswith("DataFrame")) else SymPyInt(symx.sym_i64(f"v{i}{k}"))
             recs.append(rec)
         if self.reader == "DataFrame.from_json" and types:
             have = {k for r in recs for k in r}
@@ -110,6 +113,15 @@ class Restrict(Harness):
             for nm in want:
                 if nm not in part.cols: continue
                 a, b = part.cols[nm], full.cols[nm]
+                if types.get(nm) == "str":
+                    cl.append((f"{nm}: string column as requested by dtypes", T(a.dtype == "string" and len(a) == len(b))))
+                    if a.dtype == "string" and len(a) == len(b):
+                        for r in range(len(a)):
+                            src = b.cells[r]
+                            want = "" if src is None else src
+                            ok = T(a.cells[r] == want) if (type(a.cells[r]) is str and type(want) is str) else symx.tocell(a.cells[r]).eq(symx.tocell(want))
+                            cl.append((f"{nm}[{r}]: the unrestricted value as a string, missing for null", ok))
+                    continue
                 if nm in types:
                     # read everything, select, cast: float64 column; None -> NaN, integers converted, floats kept
                     cl.append((f"{nm}: float64 as requested by dtypes", T(a.dtype == "float64")))
